@@ -670,6 +670,11 @@ func c05(w *core.World, r *core.Report) {
 
 	// ---- CANCEL-KEEPS-ON-FAILURE
 	r.Rule("CANCEL-OUTCOME", 2, "in TransactionManager.Cancel the transaction is unregistered (CleanupTransaction / slot cleared) only on the err==nil outcome of the rollback, and a nil error is returned only after the rollback succeeded: a failed cancel keeps the transaction (and its record of the old intents) so that it can be retried.")
+	ruleCancelOutcome(w, r, cancel)
+}
+
+// ruleCancelOutcome (C05, C16): the answer of TransactionManager.Cancel agrees with what happened to the rollback.
+func ruleCancelOutcome(w *core.World, r *core.Report, cancel *ssa.Function) {
 	{
 		rbs := core.CallsTo(cancel, kRollbackIface)
 		if len(rbs) != 1 {
